@@ -10,6 +10,6 @@ if [ "$RUNS" != "default" ]; then export VERIF_RUNS=$RUNS; fi
 for SEED in $(echo $SEEDS | tr , ' '); do
 echo "== seed $SEED"
 for c in "$@"; do
-  VERIF_SEED=$SEED VERIF_MIRI_SEEDS=8 ./sim/target/sim/sim check $c quick 2>&1 | grep -E 'VIOLATION|KNOWN|HARNESS|class=|^check' | cut -c1-600
+  VERIF_SEED=$SEED VERIF_MIRI_SEEDS=8 ./sim/target/sim/sim check $c ${TIER:-quick} 2>&1 | grep -E 'VIOLATION|KNOWN|HARNESS|class=|^check' | cut -c1-600
 done
 done
